@@ -617,6 +617,10 @@ pub const SYN_VALUES: &[&str] = &[
     // rename rules and junk
     "snake_case", "camelCase", "PascalCase", "SCREAMING_SNAKE_CASE", "kebab-case", "lowercase", "Title Case", "", " ", "a b", "a,",
     "a::b, c", "a, b::c,",
+    // nesting to a practical depth: 48 parentheses, 48 nested calls, 48 nested arrays
+    "((((((((((((((((((((((((((((((((((((((((((((((((5))))))))))))))))))))))))))))))))))))))))))))))))",
+    "f(f(f(f(f(f(f(f(f(f(f(f(f(f(f(f(f(f(f(f(f(f(f(f(f(f(f(f(f(f(f(f(f(f(f(f(f(f(f(f(f(f(f(f(f(f(f(f(x))))))))))))))))))))))))))))))))))))))))))))))))",
+    "[[[[[[[[[[[[[[[[[[[[[[[[[[[[[[[[[[[[[[[[[[[[[[[[1]]]]]]]]]]]]]]]]]]]]]]]]]]]]]]]]]]]]]]]]]]]]]]]]",
 ];
 
 pub const LIT_SPELLINGS: &[&str] = &["5", "5u8", "0x1f", "1.5", "1e3f32", "\"s\"", "r\"raw\"", "b'x'", "b\"bs\"", "'c'", "true", "false", "c\"cs\""];
